@@ -21,11 +21,11 @@ fn rc() -> String {
     "c11-c".into()
 }
 
-fn flow_rules(kind: i64, res: String, tag: &str, changed: bool, thr: i64) -> Vec<Arc<flow::Rule>> {
+fn flow_rules(kind: i64, res: String, tag: &str, changed: i64, thr: i64) -> Vec<Arc<flow::Rule>> {
     let mut main = flow::Rule {
         id: crate::util::name(tag, 1),
         resource: res.clone(),
-        threshold: if changed { 0.0 } else { thr as f64 },
+        threshold: if changed == 1 { 0.0 } else { thr as f64 },
         ..Default::default()
     };
     match kind {
@@ -34,12 +34,16 @@ fn flow_rules(kind: i64, res: String, tag: &str, changed: bool, thr: i64) -> Vec
             // (warning line 2 tokens, maximum 4: cold allowance 1.33, warm after two to three busy seconds)
             main.calculate_strategy = flow::CalculateStrategy::WarmUp;
             main.warm_up_period_sec = 1;
-            main.threshold = if changed { 8.0 } else { 4.0 };
+            main.threshold = if changed == 1 { 8.0 } else { 4.0 };
         }
         1 => main.stat_interval_ms = 700,
         2 => {
             main.control_strategy = flow::ControlStrategy::Throttling;
             main.max_queueing_time_ms = 500;
+            if changed == 2 {
+                // only the pace changes: one per 10 s instead of one per second
+                main.stat_interval_ms = 10_000;
+            }
         }
         _ => {}
     }
@@ -56,14 +60,14 @@ fn flow_rules(kind: i64, res: String, tag: &str, changed: bool, thr: i64) -> Vec
     v
 }
 
-fn hot_rules(kind: i64, res: String, tag: &str, changed: bool, thr: i64) -> Vec<Arc<hotspot::Rule>> {
+fn hot_rules(kind: i64, res: String, tag: &str, changed: i64, thr: i64) -> Vec<Arc<hotspot::Rule>> {
     let mut main = hotspot::Rule {
         id: crate::util::name(tag, 1),
         resource: res.clone(),
         metric_type: hotspot::MetricType::QPS,
         control_strategy: hotspot::ControlStrategy::Reject,
         param_index: 0,
-        threshold: if changed { 0 } else { thr as u64 },
+        threshold: if changed == 1 { 0 } else { thr as u64 },
         duration_in_sec: 1,
         ..Default::default()
     };
@@ -71,10 +75,13 @@ fn hot_rules(kind: i64, res: String, tag: &str, changed: bool, thr: i64) -> Vec<
         5 => {
             main.control_strategy = hotspot::ControlStrategy::Throttling;
             main.max_queueing_time_ms = 500;
+            if changed == 2 {
+                main.duration_in_sec = 10;
+            }
         }
         6 => {
             main.metric_type = hotspot::MetricType::Concurrency;
-            main.threshold = if changed { 0 } else { 1 };
+            main.threshold = if changed == 1 { 0 } else { 1 };
         }
         _ => {}
     }
@@ -94,7 +101,7 @@ fn hot_rules(kind: i64, res: String, tag: &str, changed: bool, thr: i64) -> Vec<
     v
 }
 
-fn cb_rules(res: String, tag: &str, changed: bool) -> Vec<Arc<cb::Rule>> {
+fn cb_rules(res: String, tag: &str, changed: i64) -> Vec<Arc<cb::Rule>> {
     let main = cb::Rule {
         id: crate::util::name(tag, 1),
         resource: res.clone(),
@@ -104,7 +111,7 @@ fn cb_rules(res: String, tag: &str, changed: bool) -> Vec<Arc<cb::Rule>> {
         stat_interval_ms: 1000,
         stat_sliding_window_bucket_count: 1,
         max_allowed_rt_ms: 0,
-        threshold: if changed { 5.0 } else { 1.0 },
+        threshold: if changed != 0 { 5.0 } else { 1.0 },
     };
     let side = cb::Rule {
         id: crate::util::name(tag, 2),
@@ -134,12 +141,12 @@ fn rev<T>(mut v: Vec<T>) -> Vec<T> {
 
 /// (re)load. `fresh_a`: A's rules as newly built equal objects with other ids in reversed order;
 /// `changed_a`: A's main rule with changed parameters; `with_c`: another resource C is present in this call.
-fn load(kind: i64, thr: i64, per_resource: bool, first: bool, fresh_a: bool, changed_a: bool, with_c: bool,
+fn load(kind: i64, thr: i64, per_resource: bool, first: bool, fresh_a: bool, changed_a: i64, with_c: bool,
         keep: &mut (Vec<Arc<flow::Rule>>, Vec<Arc<hotspot::Rule>>, Vec<Arc<cb::Rule>>)) {
     if kind <= 3 {
-        let a = if fresh_a || changed_a { rev(flow_rules(kind, ra(), "n", changed_a, thr)) } else { flow_rules(kind, ra(), "a", false, thr) };
+        let a = if fresh_a || changed_a != 0 { rev(flow_rules(kind, ra(), "n", changed_a, thr)) } else { flow_rules(kind, ra(), "a", 0, thr) };
         if first {
-            keep.0 = flow_rules(kind, rb(), "b", false, thr);
+            keep.0 = flow_rules(kind, rb(), "b", 0, thr);
         }
         if first {
             let _ = flow::load_rules_of_resource(&ra(), a);
@@ -152,16 +159,16 @@ fn load(kind: i64, thr: i64, per_resource: bool, first: bool, fresh_a: bool, cha
                 all.push(r.clone());
             }
             if with_c {
-                for r in flow_rules(0, rc(), "c", false, thr) {
+                for r in flow_rules(0, rc(), "c", 0, thr) {
                     all.push(r);
                 }
             }
             flow::load_rules(all);
         }
     } else if kind <= 6 {
-        let a = if fresh_a || changed_a { rev(hot_rules(kind, ra(), "n", changed_a, thr)) } else { hot_rules(kind, ra(), "a", false, thr) };
+        let a = if fresh_a || changed_a != 0 { rev(hot_rules(kind, ra(), "n", changed_a, thr)) } else { hot_rules(kind, ra(), "a", 0, thr) };
         if first {
-            keep.1 = hot_rules(kind, rb(), "b", false, thr);
+            keep.1 = hot_rules(kind, rb(), "b", 0, thr);
         }
         if first {
             let _ = hotspot::load_rules_of_resource(&ra(), a);
@@ -174,16 +181,16 @@ fn load(kind: i64, thr: i64, per_resource: bool, first: bool, fresh_a: bool, cha
                 all.push(r.clone());
             }
             if with_c {
-                for r in hot_rules(4, rc(), "c", false, thr) {
+                for r in hot_rules(4, rc(), "c", 0, thr) {
                     all.push(r);
                 }
             }
             hotspot::load_rules(all);
         }
     } else {
-        let a = if fresh_a || changed_a { rev(cb_rules(ra(), "n", changed_a)) } else { cb_rules(ra(), "a", false) };
+        let a = if fresh_a || changed_a != 0 { rev(cb_rules(ra(), "n", changed_a)) } else { cb_rules(ra(), "a", 0) };
         if first {
-            keep.2 = cb_rules(rb(), "b", false);
+            keep.2 = cb_rules(rb(), "b", 0);
         }
         if first {
             let _ = cb::load_rules_of_resource(&ra(), a);
@@ -196,7 +203,7 @@ fn load(kind: i64, thr: i64, per_resource: bool, first: bool, fresh_a: bool, cha
                 all.push(r.clone());
             }
             if with_c {
-                for r in cb_rules(rc(), "c", false) {
+                for r in cb_rules(rc(), "c", 0) {
                     all.push(r);
                 }
             }
@@ -247,7 +254,7 @@ fn enter(res: String, chain: &Arc<sentinel_core::base::SlotChain>) -> Result<Ent
 
 /// shape: p0 = kind (0 flow default window, 1 flow private window, 2 flow throttling, 3 flow warm-up, 4 hotspot QPS reject, 5 hotspot throttling,
 /// 6 hotspot concurrency, 7 circuit breaker), p1 = 1: reload through load-for-resource (else load-all, with resource C
-/// appearing in the same call), p2 = steps before the reload, p3 = steps after it, p4 = 1: finally A's main rule is changed,
+/// appearing in the same call), p2 = steps before the reload, p3 = steps after it, p4 = 1: finally A's main rule is changed (threshold; 2: only the pace of a throttling rule),
 /// p5 + 1 = threshold of the main QPS rule, p6 = bound on hash iterations that deviate from insertion order (0: unbounded), p7 = 1: complete global slot chain
 pub fn c11_reload(s: Shape) {
     let kind = s.p[0];
@@ -262,12 +269,12 @@ pub fn c11_reload(s: Shape) {
     clock::arm(t * 1_000_000);
     let mut keep = (Vec::new(), Vec::new(), Vec::new());
     let chain = chain_of(kind, s.p[7] == 1);
-    load(kind, thr, per_res, true, false, false, false, &mut keep);
+    load(kind, thr, per_res, true, false, 0, false, &mut keep);
     let mut open_a: Vec<EntryStrongPtr> = Vec::new();
     let mut open_b: Vec<EntryStrongPtr> = Vec::new();
     for step in 0..(before + after) {
         if step == before {
-            load(kind, thr, per_res, false, true, false, !per_res, &mut keep);
+            load(kind, thr, per_res, false, true, 0, !per_res, &mut keep);
             vrt::cover("reloaded");
         }
         if kind == 3 {
@@ -315,17 +322,37 @@ pub fn c11_reload(s: Shape) {
         }
     }
     if s.p[4] == 1 {
-        // a changed rule takes effect on the very next entry
-        load(kind, thr, per_res, false, false, true, false, &mut keep);
+        // a changed rule (threshold) takes effect on the very next entry
+        load(kind, thr, per_res, false, false, 1, false, &mut keep);
         let ea = enter(ra(), &chain);
         vrt::cover("changed");
         if kind == 7 {
             // the changed breaker rule (threshold 5) starts closed, whatever the old breaker's state was
             vrt::check(ea.is_ok(), "C11:changed-rule-not-in-effect");
-        } else if kind != 2 && kind != 3 && kind != 5 {
+        } else if kind != 3 {
             vrt::check(ea.is_err(), "C11:changed-rule-not-in-effect");
         }
         if let Ok(e) = ea {
+            e.exit();
+        }
+    }
+    if s.p[4] == 2 && (kind == 2 || kind == 5) {
+        // only the pace of the throttling rule changes (one per 10 s instead of one per second): an entry 1.5 s
+        // after an admitted one would now have to wait 8.5 s, far beyond the queueing limit
+        load(kind, thr, per_res, false, false, 2, false, &mut keep);
+        t += 2_000;
+        clock::set_ns(t * 1_000_000);
+        let e1 = enter(ra(), &chain);
+        vrt::check(e1.is_ok(), "C11:changed-rule-rejects-a-lonely-entry");
+        if let Ok(e) = e1 {
+            e.exit();
+        }
+        t = clock::now_ns().unwrap() / 1_000_000 + 1_500;
+        clock::set_ns(t * 1_000_000);
+        let e2 = enter(ra(), &chain);
+        vrt::cover("changed");
+        vrt::check(e2.is_err(), "C11:changed-rule-not-in-effect");
+        if let Ok(e) = e2 {
             e.exit();
         }
     }
